@@ -358,7 +358,11 @@ class WebSocketApp:
             # Finally call the callback AFTER all teardown is complete
             self._callback(self.on_close, close_status_code, close_reason)
 
+        # external dispatcher: a retry has been scheduled and has not run yet
+        retry_pending = [False]
+
         def setSock(reconnecting: bool = False) -> None:
+            retry_pending[0] = False
             if reconnecting and self.sock:
                 self.sock.shutdown()
 
@@ -504,6 +508,10 @@ class WebSocketApp:
             ],
             reconnecting: bool = False,
         ) -> bool:
+            if retry_pending[0] and not isinstance(e, (KeyboardInterrupt, SystemExit)):
+                # the same loss reported once more (e.g. the end of stream of a
+                # connection already given up for a ping timeout): one retry only
+                return
             self.has_errored = True
             self._stop_ping_thread()
             if not reconnecting:
@@ -520,6 +528,7 @@ class WebSocketApp:
                     _logging.debug(
                         f"Calling custom dispatcher reconnect [{len(inspect.stack())} frames in stack]"
                     )
+                    retry_pending[0] = True
                     dispatcher.reconnect(reconnect, setSock)
             else:
                 _logging.error(f"{e} - goodbye")
